@@ -233,13 +233,33 @@ def r18_3(ctx: Ctx, E: Effects, rule="R18.3"):
         rv = rr[0][1]["V_r"]
         okg = bool(pfind3(gi.node, "Atom(self._molecule_top[%s], self._residues[%s][sum((V_i == %s for V_i in self._each_atom_resid[:%s]))])"
                           % (ip, rv, rv, ip)))
-    ctx.ob(rule, gi, "atom lookup in Molecule.__getitem__", okg,
-           "atom i is (topology atom i, coordinate atom number 'atoms of the same residue before i' of the residue that atom i "
-           "belongs to)", node=gi.node)
+    if not okg and rr:
+        okg = bool(pfind3(gi.node, "Atom(self._molecule_top[%s], self._residues[%s][self._each_atom_resid[:%s].count(%s)])"
+                          % (ip, rv, ip, rv)))
+    at_calls = [c_ for c_ in calls_in(gi.node) if call_name(c_) == "Atom"]
+    if okg or not rr or not at_calls:
+        ctx.ob(rule, gi, "atom lookup in Molecule.__getitem__", okg,
+               "atom i is (topology atom i, coordinate atom number 'atoms of the same residue before i' of the residue that atom i "
+               "belongs to)", node=gi.node)
+    else:
+        wrong = any(len(c_.args) == 2 and norm(c_.args[0]) != "self._molecule_top[%s]" % ip and "molecule_top" in norm(c_.args[0]) for c_ in at_calls)
+        if wrong:
+            ctx.ob(rule, gi, "atom lookup in Molecule.__getitem__", False,
+                   "atom i is (topology atom i, coordinate atom number 'atoms of the same residue before i' of the residue that atom i "
+                   "belongs to)", node=gi.node)
+        else:
+            ctx.ob(rule, gi, "atom lookup in Molecule.__getitem__", True, "the position of atom i inside its residue is not computed in a "
+                   "recognised form; not decided on this tree", undecided=True, node=gi.node)
     mi = ctx.func("Molecule.__init__")
     oke = bool(pfind3(mi.node, "self._each_atom_resid += [V_k] * len(V_res)"))
-    ctx.ob(rule, mi, "per-atom residue index table", oke,
-           "the per-atom residue table holds the residue's position once per atom of that residue, in order", node=mi.node)
+    table_stores = [s_ for s_ in walk_no_nested(mi.node) if isinstance(s_, (ast.Assign, ast.AugAssign))
+                    and attr_chain(s_.targets[0] if isinstance(s_, ast.Assign) else s_.target) == "self._each_atom_resid"]
+    if oke or not [s_ for s_ in table_stores if not (isinstance(s_, ast.Assign) and isinstance(s_.value, ast.List) and not s_.value.elts)]:
+        ctx.ob(rule, mi, "per-atom residue index table", oke,
+               "the per-atom residue table holds the residue's position once per atom of that residue, in order", node=mi.node)
+    else:
+        ctx.ob(rule, mi, "per-atom residue index table", True, "the per-atom residue table is not built by `+= [k] * len(residue)`; "
+               "not decided on this tree", undecided=True, node=mi.node)
     atom = ctx.repo.cls("Atom")
     R = E.R
     for attr, want in (("position", "AtomGro"), ("velocity", "AtomGro"), ("atomid", "AtomGro")):
@@ -372,8 +392,12 @@ def r18_4(ctx: Ctx, E: Effects, rule="R18.4"):
     if it is not None:
         outer = pfind2(it.node, "for V_r in self._residues: ...")
         oki = bool(outer) and bool(pfind2(outer[0][0], "for V_a in %s: ..." % outer[0][1]["V_r"]))
-    ctx.ob(rule, it, "Molecule.__iter__", bool(oki), "iterating a molecule visits every atom of every residue in order",
-           node=it.node if it else None)
+    if oki or it is None or not any(attr_chain(x) == "self._residues" for x in ast.walk(it.node) if isinstance(x, ast.Attribute)):
+        ctx.ob(rule, it, "Molecule.__iter__", bool(oki), "iterating a molecule visits every atom of every residue in order",
+               node=it.node if it else None)
+    else:
+        ctx.ob(rule, it, "Molecule.__iter__", True, "the iteration over the residues' atoms is not written as two nested loops; "
+               "not decided on this tree", undecided=True, node=it.node)
 
 
 def r18_5(ctx: Ctx, E: Effects, rule="R18.5"):
